@@ -165,6 +165,13 @@ pub fn run(cfg: &Cfg, rep: &mut Report) {
     let quick_alpha: Vec<char> = "a1\\()[]{}?*|^-,k".chars().collect();
     if cfg.quick() {
         enumerate(&mut ctx, &quick_alpha, 4, "exhaustive");
+        // one seed-rotated alphabet (10 core symbols + 4 extras) at length 5
+        let mut alpha: Vec<char> = "a\\()[]{}?|".chars().collect();
+        let mut ex: Vec<char> = "+$.<>:=!&cuqpPdbBx0-^,1k*".chars().collect();
+        let mut rng = Rng::new(cfg.seed ^ 0x08);
+        rng.shuffle(&mut ex);
+        alpha.extend(ex.iter().take(4));
+        enumerate(&mut ctx, &alpha, 5, "exhaustive_rotating");
         ctx.rep.max("exhaustive_length", 4);
         ctx.rep.max("exhaustive_alphabet", quick_alpha.len() as u64);
     } else {
